@@ -1,0 +1,5 @@
+//go:build !verif
+
+package storage
+
+func verifPoint(_ string, _ any) {}
